@@ -10,27 +10,27 @@ import (
 
 // Request is one derivation (or lookup) the emitted program performs, with the model's verdict.
 type Request struct {
-	Prop      string   `json:"prop"`
-	API       string   `json:"api"` // product spectrum listing shape join bimap getter setter lensm iso morphism
-	N         int      `json:"n,omitempty"`
-	ByName    bool     `json:"byName,omitempty"`
-	Names     []string `json:"names,omitempty"`
-	Types     []string `json:"types,omitempty"`
-	PtrCont   bool     `json:"ptrContainer,omitempty"` // container type parameter is *S
-	HiddenCap bool     `json:"hiddenCap,omitempty"`    // names passed as names[:k] with the missing ones behind the capacity
-	Given     int      `json:"given,omitempty"`        // number of names actually passed (too few names)
-	Expect    string   `json:"expect"`                 // focus | panic | panicOrCorrect
-	Foci      []int    `json:"foci,omitempty"`         // expected listing entry per returned optic
-	Why       string   `json:"why,omitempty"`
-	NT        bool     `json:"nt"`
-	Classes   []string `json:"classes,omitempty"`
+	Prop      string         `json:"prop"`
+	API       string         `json:"api"` // product spectrum listing shape join bimap getter setter lensm iso morphism
+	N         int            `json:"n,omitempty"`
+	ByName    bool           `json:"byName,omitempty"`
+	Names     []string       `json:"names,omitempty"`
+	Types     []string       `json:"types,omitempty"`
+	PtrCont   bool           `json:"ptrContainer,omitempty"` // container type parameter is *S
+	HiddenCap bool           `json:"hiddenCap,omitempty"`    // names passed as names[:k] with the missing ones behind the capacity
+	Given     int            `json:"given,omitempty"`        // number of names actually passed (too few names)
+	Expect    string         `json:"expect"`                 // focus | panic | panicOrCorrect
+	Foci      []int          `json:"foci,omitempty"`         // expected listing entry per returned optic
+	Why       string         `json:"why,omitempty"`
+	NT        bool           `json:"nt"`
+	Classes   []string       `json:"classes,omitempty"`
 	Extra     map[string]any `json:"extra,omitempty"`
 }
 
 // Program is what one emitted package contains.
 type Program struct {
-	Seed     int        `json:"seed"`
-	Shapes   []Shape    `json:"shapes"`
+	Seed     int         `json:"seed"`
+	Shapes   []Shape     `json:"shapes"`
 	Requests [][]Request `json:"requests"` // per shape
 }
 
@@ -38,10 +38,11 @@ const lowerNames = "abcdefgh"
 const upperNames = "ABCDEFGH"
 
 type shapeGen struct {
-	t      *rapid.T
-	idx    int
-	nextID int
-	sh     *Shape
+	t          *rapid.T
+	idx        int
+	nextID     int
+	sh         *Shape
+	nestedBias bool // C04: more named nested struct fields
 }
 
 func (g *shapeGen) fieldName(used map[string]bool) string {
@@ -85,15 +86,27 @@ func (g *shapeGen) genStruct(name string, depthLeft int, minFields int) {
 	for i := 0; i < n; i++ {
 		kind := "plain"
 		if depthLeft > 0 {
-			switch k := rapid.IntRange(0, 19).Draw(g.t, "kind"); {
-			case k < 4:
-				kind = "embed"
-			case k < 6:
-				kind = "pembed"
-			case k < 8:
-				kind = "nested"
-			case k < 9:
-				kind = "embedns"
+			k := rapid.IntRange(0, 19).Draw(g.t, "kind")
+			if g.nestedBias {
+				switch {
+				case k < 3:
+					kind = "embed"
+				case k < 4:
+					kind = "pembed"
+				case k < 9:
+					kind = "nested"
+				}
+			} else {
+				switch {
+				case k < 4:
+					kind = "embed"
+				case k < 6:
+					kind = "pembed"
+				case k < 8:
+					kind = "nested"
+				case k < 9:
+					kind = "embedns"
+				}
 			}
 		} else if rapid.IntRange(0, 19).Draw(g.t, "kindleaf") == 0 {
 			kind = "embedns"
